@@ -18,6 +18,7 @@ import (
 	"sort"
 	"strings"
 	"sync"
+	"sync/atomic"
 	"syscall"
 	"time"
 
@@ -289,6 +290,12 @@ func bagToTriples(m map[string]int) [][]any {
 var errPerm = fmt.Errorf("injected: %w", fs.ErrPermission)
 var errIO = errors.New("injected: input/output error")
 
+// swTimeouts counts scans that did not return; after maxSwTimeouts of them the remaining runs are skipped
+// (each costs 30 s and a leaked goroutine): the hangs are reported, the rest is not waited for.
+var swTimeouts atomic.Int64
+
+const maxSwTimeouts = 8
+
 // runScanWalk executes one case in one mode ("stream" | "fallback" | "real") with one name map.
 func runScanWalk(c *swCase, mode, nmName, tmp string, faultKind int) (obs swObs) {
 	obs.Mode = mode + "/" + nmName
@@ -498,6 +505,7 @@ func runScanWalk(c *swCase, mode, nmName, tmp string, faultKind int) (obs swObs)
 	case <-done:
 	case <-time.After(30 * time.Second):
 		obs.Panic = "timeout: Scan did not return within 30s"
+		swTimeouts.Add(1)
 		return
 	}
 	s.mu.Lock()
@@ -628,6 +636,9 @@ func init() {
 					if skip {
 						continue
 					}
+				}
+				if swTimeouts.Load() >= maxSwTimeouts {
+					continue
 				}
 				runs = append(runs, runScanWalk(&c, m, nmName, e.Tmp, idx+mi))
 			}
